@@ -33,6 +33,8 @@ type c18Kind struct {
 func c18Kinds() []c18Kind {
 	return []c18Kind{
 		{"unknown-type", J{"type": "strng"}, nil},
+		{"unknown-type-in-list", J{"type": A{"strng", "null"}}, nil},
+		{"type-list-with-a-number", J{"type": A{1}}, nil},
 		{"ref-missing-def", J{"$ref": "#/$defs/Missing"}, nil},
 		{"ref-missing-file", J{"$ref": "nowhere.json"}, nil},
 		{"ref-unsupported-pointer", J{"$ref": "#/properties/ok"}, nil},
